@@ -114,6 +114,59 @@ func pruneTables(db objects.Store, survivingCommits [][]byte, allBlockKeys, allB
 	}
 }
 
+// childrenFirst orders the commits to remove so that every commit comes
+// before its parents. Deleting in this order means an interrupted prune
+// never leaves a commit in the store whose parent is already gone.
+func childrenFirst(db objects.Store, sums [][]byte) ([][]byte, error) {
+	parents := map[string][][]byte{}
+	for _, sum := range sums {
+		com, err := objects.GetCommit(db, sum)
+		if err != nil {
+			return nil, err
+		}
+		parents[string(sum)] = com.Parents
+	}
+	type frame struct {
+		sum  []byte
+		next int
+	}
+	visited := map[string]struct{}{}
+	// post-order depth-first walk: parents are emitted before their children
+	parentsFirst := make([][]byte, 0, len(sums))
+	for _, root := range sums {
+		if _, ok := visited[string(root)]; ok {
+			continue
+		}
+		visited[string(root)] = struct{}{}
+		stack := []frame{{root, 0}}
+		for len(stack) > 0 {
+			fr := &stack[len(stack)-1]
+			ps := parents[string(fr.sum)]
+			if fr.next < len(ps) {
+				p := ps[fr.next]
+				fr.next++
+				if _, ok := parents[string(p)]; !ok {
+					continue
+				}
+				if _, ok := visited[string(p)]; ok {
+					continue
+				}
+				visited[string(p)] = struct{}{}
+				stack = append(stack, frame{p, 0})
+				continue
+			}
+			parentsFirst = append(parentsFirst, fr.sum)
+			stack = stack[:len(stack)-1]
+		}
+	}
+	n := len(parentsFirst)
+	result := make([][]byte, n)
+	for i, sum := range parentsFirst {
+		result[n-1-i] = sum
+	}
+	return result, nil
+}
+
 type PruneOptions struct {
 	FindCommitsPbar       func() pbar.Bar
 	PruneTablesPbar       func() pbar.Bar
@@ -150,6 +203,10 @@ func Prune(db objects.Store, rs ref.Store, opts *PruneOptions) (err error) {
 	}
 	if len(commitsToRemove) == 0 {
 		return nil
+	}
+	commitsToRemove, err = childrenFirst(db, commitsToRemove)
+	if err != nil {
+		return err
 	}
 
 	allBlockKeys, err := objects.GetAllBlockKeys(db)
